@@ -759,7 +759,7 @@ Qed.
 Lemma col_set_In (c : col) i v (x : entry) : In x (col_set O c i v) -> x = (i, v) \/ In x c.
 Proof.
   induction c as [|e c IH]; cbn [col_set].
-  - destruct (nzb O v); cbn [In]; tauto.
+  - destruct (nzb O v); cbn [In]; [intros [H|[]]; left; symmetry; exact H | intros []].
   - destruct (fst e <? i).
     + cbn [In]. intros [H|H]; [tauto|]. apply IH in H. tauto.
     + destruct (fst e =? i).
